@@ -531,6 +531,29 @@ func richOp(d dialect, size int) *op {
 	return o
 }
 
+// scopeOp plans tables of several schemas with a schema-scoped plan: the planner must refuse, and
+// the refusal (which lists the schemas it found, collected in a map) must read the same every time.
+func scopeOp(d dialect, a dsch) *op {
+	o := &op{name: "scope-error/" + d.name}
+	o.steps = []func() error{func() error {
+		var changes []schema.Change
+		for i, tb := range a.Tables {
+			s := schema.New(fmt.Sprintf("tenant_%c", 'a'+rune(len(a.Tables)-i)))
+			t := schema.NewTable(tb.Name).AddColumns(schema.NewColumn("id").SetType(d.intT()))
+			s.AddTables(t)
+			changes = append(changes, &schema.AddTable{T: t})
+		}
+		q := ""
+		_, err := d.plan.PlanChanges(context.Background(), "p", changes, func(o *migrate.PlanOptions) { o.SchemaQualifier = &q })
+		if err == nil {
+			return fmt.Errorf("a schema-scoped plan over %d schemas was accepted", len(a.Tables))
+		}
+		o.out = []byte(err.Error())
+		return nil
+	}}
+	return o
+}
+
 func sumOp(files map[string]string) *op {
 	o := &op{name: "dir-sum"}
 	dir := &migrate.MemDir{}
@@ -609,6 +632,7 @@ func (sc scenario) ops(perm func(int) []int) []*op {
 		out = append(out, planOp(d, sc.a, sc.b, perm), hclOp(d, sc.a), hclFilesOp(d, sc.a))
 	}
 	out = append(out, richOp(dialects[1], 10+len(sc.files)), richOp(dialects[2], 10+len(sc.files)))
+	out = append(out, scopeOp(dialects[1], sc.a), scopeOp(dialects[2], sc.a))
 	return append(out, sumOp(sc.files))
 }
 
